@@ -379,8 +379,9 @@ func runC13(r *core.Run) {
 	{
 		rg := core.NewRNG(r.Seed, "C13", "scaled-whites")
 		var n int64
-		for _, k := range []float32{100, 10.5, 11, 9.99, 50, 255, 1000, 65535, 0.1, 0.01, 1e-3} {
-			for _, base := range [][3]float32{c13D50, c13D65, {float32(rg.Uniform(0.5, 1.5)), 1, float32(rg.Uniform(0.5, 1.5))}} {
+		for _, k := range []float32{100, 10.5, 11, 9.99, 50, 255, 1000, 65535, 0.1, 0.01, 1e-3, 1e-6, 1e-10, 1e-14, 1e-18, 1e-21, 1e-24, 1e-27, 1e-30, 1e6, 1e12, 1e18, 1e24, 1e30, 0.5, 2, 0.25} {
+			// ordinary whites and whites with a pattern in their components (all equal = illuminant E, two equal)
+			for _, base := range [][3]float32{c13D50, c13D65, {float32(rg.Uniform(0.5, 1.5)), 1, float32(rg.Uniform(0.5, 1.5))}, {1, 1, 1}, {1, 1, 0.5}, {0.75, 1, 1}} {
 				w := [3]float32{base[0] * k, base[1] * k, base[2] * k}
 				ratios := [][3]float32{{1, 1, 1}, {0.5, 0.5, 0.5}, {0.18, 0.18, 0.18}, {0.004, 0.002, 0.006}, {0.0089, 0.0088, 0.0072}, {0, 0, 0}, {1.2, 0.8, 0.3}}
 				for i := 0; i < 40; i++ {
